@@ -179,7 +179,7 @@ impl Check for CrossCheck {
 
     fn budget(&self, tier: Tier) -> u64 {
         match tier {
-            Tier::Quick => 40_000,
+            Tier::Quick => 80_000,
             Tier::Thorough => 250_000,
         }
     }
